@@ -142,10 +142,26 @@ def run_hp(case, ctx):
                 labels.add("int-param")
             if (p[4] == "int") != (isinstance(p[0], int) and isinstance(p[1], int)):
                 labels.add("bound-type-differs-from-dtype")
+        # independent of what the registry says: every optimizer the agent steps must run with the agent's own current
+        # learning rate for the networks it updates (critic optimizers <-> lr_critic, actor optimizers <-> lr_actor, else lr)
+        for i, a in enumerate(pop):
+            two = hasattr(a, "lr_actor") and hasattr(a, "lr_critic")
+            for oname, opt in T.flat_optimizers(a).items():
+                attr = ("lr_critic" if "critic" in oname else "lr_actor") if two else "lr"
+                want = getattr(a, attr)
+                bad = [g["lr"] for g in opt.param_groups if g["lr"] != want]
+                if bad:
+                    ctx.fail(f"C06/optimizer_steps_with_other_lr_than_agent/{attr}",
+                             "an optimizer steps with a learning rate that is not the agent's current value for the networks it updates",
+                             algo=algo, agent=i, optimizer=oname, group_lr=bad[0], agent_value=want, attr=attr, mut=str(a.mut), round=rnd)
+                    break
         # a learn step still works with the mutated values (the agent "subsequently uses" them)
     for l in labels:
         ctx.label(l)
     ctx.label(f"algo={algo}")
+    fl = [nm for nm, p in params.items() if p[4] == "float"]
+    if len(fl) > 1 and all(params[nm][:2] == params[fl[0]][:2] and all(r[nm] == r[fl[0]] for r in case["init"]) for nm in fl[1:]):
+        ctx.label("equal-learning-rates")
     ctx.label("shared-config" if case["shared"] else "own-config")
     if ("clipped" in labels or "int-param" in labels) and "lr-mutated" in labels:
         ctx.nontrivial({"a": algo, "p": params, "s": case["shared"], "n": n, "r": [o[0] for o in case["rounds"]]})
@@ -171,6 +187,13 @@ def hp_strategy(draw, tier):
         params[nm] = [lo, hi, draw(st.sampled_from([0.5, 0.8])), draw(st.sampled_from([1.2, 2.0])), "int"]
     n = draw(st.integers(1, 4))
     init = [{nm: draw(st.floats(0, 1)) for nm in params} for _ in range(n)]
+    if len(names["float"]) > 1 and draw(st.integers(0, 2)) == 0:
+        # numerically EQUAL actor and critic learning rates (same range, same start) - distinct float objects, equal values
+        first = names["float"][0]
+        for nm in names["float"][1:]:
+            params[nm] = list(params[first])
+            for row in init:
+                row[nm] = row[first]
     rounds = draw(st.lists(st.one_of(st.tuples(st.just("mutate"), st.integers(0, 999)),
                                      st.tuples(st.just("mutate"), st.integers(0, 999)),
                                      st.tuples(st.just("mutate"), st.integers(0, 999)),
